@@ -299,6 +299,29 @@ def fixed_mixture_case(rnd, clustered):
             "chains": [ch], "threshold": 0.5, "top_trees": None, "expect_empty_clone": True}
 
 
+def tie_mixture_case(rnd, clustered):
+    """an even number of recorded trees split half and half between two incompatible topologies: at the default
+    threshold 0.5 no conflicting clade has strict majority support, the consensus command must complete"""
+    from ..common import canon_forest
+
+    n, S, G = rnd.randint(3, 5), rnd.randint(1, 2), rnd.randint(3, 5)
+    pm = list(range(n))
+    rnd.shuffle(pm)
+    a, b, c = pm[:3]
+    rest = [[[x], []] for x in pm[3:]]
+    t1 = canon_forest([[[a, b], [[[c], []]]]] + rest)   # clades {a,b,c}, {c}
+    t2 = canon_forest([[[b, c], [[[a], []]]]] + rest)   # clades {a,b,c}, {a}
+    t3 = canon_forest([[[a], [[[b], []]]], [[c], []]] + rest)
+    t4 = canon_forest([[[c], [[[b], []]]], [[a], []]] + rest)
+    pair = rnd.choice([(t1, t2), (t3, t4)])
+    names, crows, _ = _names(rnd, n, clustered)
+    vals = [[[fr(x) for x in row] for row in gen_values(rnd, S, G, 3)] for _ in range(n)]
+    k = rnd.choice([1, 2])
+    ch = [{"forest": t, "outs": [], "lp": -10.0, "relabel": True} for t in list(pair) * k]
+    return {"kind": "trace", "G": G, "S": S, "vals": vals, "names": names, "samples": _samples(rnd, S), "clusters": crows,
+            "chains": [ch], "threshold": 0.5, "top_trees": None}
+
+
 def gen_direct_case(rnd, tier, i):
     n = rnd.randint(1, 6)
     S = rnd.randint(1, 3)
@@ -337,6 +360,8 @@ def cases(tier, rnd):
         out.append(gen_trace_case(rnd, tier, i))
     for k in range(6 if tier == "quick" else 40):
         out.append(fixed_mixture_case(rnd, k % 2 == 1))
+    for k in range(4 if tier == "quick" else 40):
+        out.append(tie_mixture_case(rnd, k % 2 == 1))
     for i in range(nd):
         out.append(gen_direct_case(rnd, tier, i))
     return out
